@@ -1,5 +1,6 @@
-\* C04/C05 thorough: all cases, plus two-site mutations and header byte pairs.
+\* C04/C05 thorough: all instances, plus two-site mutations and header byte pairs everywhere.
 SPECIFICATION Spec
 CONSTANTS Thorough = TRUE  Pairs = TRUE
+  HeaderPairsFor <- HPAll
 INVARIANT GrammarOk CasesBind Emit
 CHECK_DEADLOCK FALSE
